@@ -641,6 +641,13 @@ def oracle(case, trace, actions, consts):
                     return n, 'consumer-view', kind, f'ConsumerSubscription.{kind} gave {c} for wire response {r}'
         elif kind == 'adv':
             now += op[1]
+        elif kind == 'hk':
+            # a subscription that is over the failure limit when housekeeping runs is ended for good, even if a
+            # delivery that was already in flight succeeds afterwards (seen in the fanout stream: nested report fails,
+            # housekeeping, then the pending exchange of the outer report succeeds)
+            for s in subs:
+                if s['fails'] >= max_err:
+                    s['dead'] = True
         elif kind == 'report':
             amb = []
             want = {k for k, s in enumerate(subs) if alive(s, amb) and spec_match(s['filter'], a, actions)}
@@ -963,11 +970,18 @@ def histogram(cases, traces, actions, hist):
                 hist['fan_receivers'] += len(order)
                 hist['fan_handoffs'] += len(evk)
                 first = next((i for i, ev in enumerate(fan['events']) if ev['inner']), None)
-                for ev in fan['events']:
+                for i, ev in enumerate(fan['events']):
                     for x in ev['inner']:
-                        hist['fan_inflight_' + x['op'][0]] += 1
+                        iop = x['op']
+                        hist['fan_inflight_' + iop[0]] += 1
                         hist['fan_inflight_faulted'] += x['resp'][0] == 'fault'
                         hist['fan_nested_handoffs'] += len(x['handed'])
+                        hist['fan_nested_handoffs_failed'] += len([h for h in x['handed'] if not h['ok']])
+                        if iop[0] in ('unsub', 'renew') and x['resp'][0] in ('unsub', 'renew') and iop[1][0] == 'id':
+                            j = iop[1][1]
+                            rel = ('self' if j == evk[i] else 'not_a_receiver' if j not in order or evk[i] not in order
+                                   else 'later_receiver' if order.index(j) > order.index(evk[i]) else 'earlier_receiver')
+                            hist[f'fan_{iop[0]}_of_{rel}'] += 1
                 for x in fan['waited']:
                     hist['fan_waited_for_lock_' + x['op'][0]] += 1
                 if first is not None:
@@ -996,7 +1010,12 @@ def run(ctx):
     hist = Counter()
     plan = [('life', ctx.n(220, 2000), ctx.n(16, 40)), ('malformed', ctx.n(90, 800), ctx.n(16, 40)),
             ('decimal', ctx.n(50, 500), ctx.n(16, 40)), ('fanout', ctx.n(70, 1200), ctx.n(12, 24))]
+    import os
     import time as _time
+    only = [x for x in os.environ.get('VERIF_C08_STREAMS', '').split(',') if x]      # development aid: a subset of streams
+    if only:
+        plan = [(st, (n if st in only else 0), m) for st, n, m in plan]
+        ctx.log(f'VERIF_C08_STREAMS={only}: the other streams are skipped')
     # all inputs first (ONE rng, fixed order), then the implementation runs in the background while Coq checks the
     # theorems; the streams are judged in order
     inputs = {}
@@ -1004,7 +1023,7 @@ def run(ctx):
         if stream == 'fanout':
             continue
         inputs[stream] = [gen_case(ctx.rng, actions, max_ops, stream) for _ in range(ncases)]
-    e2e = [gen_e2e(ctx.rng, ctx.n(10, 20)) for _ in range(ctx.n(20, 200))]
+    e2e = [gen_e2e(ctx.rng, ctx.n(10, 20)) for _ in range(0 if only and 'e2e' not in only else ctx.n(20, 200))]
     inputs['fanout'] = [gen_fan_case(ctx.rng, actions, plan[3][2]) for _ in range(plan[3][1])]
     inputs['e2e'] = e2e
     bg = ThreadPoolExecutor(max_workers=2)
@@ -1080,7 +1099,8 @@ def run(ctx):
                          {'stream': 'e2e', 'case': c, 'failing_op_index': n, 'impl_trace': tr[:n + 1],
                           'oracle': {'verdict': 'fail', 'clause': clause, 'detail': detail, 'text': text}})
         ctx.count('e2e', len(e2e), [json.dumps(t, sort_keys=True) for t in traces], ops=sum(len(t) for t in traces))
-        ctx.sample({'stream': 'e2e', 'case': e2e[0], 'trace': [[x.get('step'), x.get('handed')] for x in traces[0]]})
+        if e2e:
+            ctx.sample({'stream': 'e2e', 'case': e2e[0], 'trace': [[x.get('step'), x.get('handed')] for x in traces[0]]})
         ctx.log(f'e2e: {len(e2e)} scenarios with real SdcConsumers, implementation done at {t_impl:.0f}s')
     ctx.cov['histogram'] = dict(sorted(hist.items()))
     if ctx.thorough:
@@ -1095,17 +1115,31 @@ def run(ctx):
              'subscriber endpoint, provider stop_all with and without SubscriptionEnd) on a real SdcProvider with the '
              'sync and async managers and path / reference-parameter dispatch; after every op the response, the messages '
              'handed to subscriber-facing SOAP clients, the subscription table and the client pool are compared with the '
-             'model (vm_compute) and judged by the oracle; distinct = distinct implementation traces',
+             'model (vm_compute) and judged by the oracle; distinct = distinct implementation traces.  fanout stream: '
+             'reports whose fan-out is interleaved with other threads: from inside post_message_to of the n-th hand-off '
+             '(message handed to the subscriber-facing client, exchange not yet done) a second thread performs Unsubscribe / '
+             'Renew / GetStatus / Subscribe requests (targets earlier, later and the current receiver), clock steps across an '
+             'expiry, housekeeping passes and whole reports of another sender with failing deliveries; each later hand-off '
+             'is judged against the subscription state at ITS send time, passed-over receivers against the state when '
+             'their turn came (receiver order recorded from _get_subscriptions_for_action), and the whole trace is compared '
+             'with the fine-grained model Eventing/FanOut.v run with the same receiver order; async managers: a lock probe '
+             'shows that table operations wait for the fan-out, they are performed afterwards (model: deferred)',
         assumptions=['clock values and durations of the compared streams are multiples of 1/8 s',
                      'subscriber endpoints are distinguished by netloc; one outcome per endpoint and op',
-                     'async manager: SoapClientAsync (aiohttp) is replaced by a coroutine wrapper around the loop-back client'],
+                     'async manager: SoapClientAsync (aiohttp) is replaced by a coroutine wrapper around the loop-back client',
+                     'fanout stream: the operations of other threads happen at one point of a delivery (after the hand-off '
+                     'to the client, before the exchange) and each request is atomic (lookup and effect not split)'],
         trusted_base=['translator harness/impl/gen_eventing_consts.py (action URIs, MAX_NOTIFY_ERRORS, '
                       'DEFAULT_MAX_SUBSCR_DURATION, housekeeping grace, rounding digits)',
                       'correspondence harness harness/impl/c08_impl.py + harness/world.py (loop-back transport, virtual clock, '
-                      'tap on post_message_to, reads _subscriptions / _soap_clients for the state views)',
+                      'tap on post_message_to, reads _subscriptions / _soap_clients for the state views; fanout stream: '
+                      'the receiver order is read from the result of _get_subscriptions_for_action, table-lock probe)',
                       'model evaluated inside Coq with vm_compute on generated case files'],
         not_modelled=['real sockets, aiohttp client and its exception classes', 'event-loop timing / concurrency of the async gather',
-                      'set iteration order of the subscription table (messages of one op are compared as a sorted list)',
+                      'set iteration order of the subscription table (atomic reports: messages of one op are compared as a '
+                      'sorted list; fine-grained reports: the order is an input of the model, taken from the implementation)',
+                      'provider shutdown from inside a fan-out; requests split between lookup and effect; two fan-outs of '
+                      'the same manager interleaved hand-off by hand-off (a nested report is atomic)',
                       'Subscribe / Report after provider shutdown (async event loop is gone); periodic reports',
                       'ConsumerSubscriptionManager renew thread'])
 
@@ -1128,9 +1162,30 @@ def replay(ctx, rep):
         print('oracle:', bad)
         return 1 if bad else 0
     bad = oracle(case, tr, actions, consts)
+    fine = any(op[0] == 'freport' for op in case['ops'])
+    for attempt in range(7):
+        if bad or not fine:
+            break
+        # the receiver order of a fan-out is the iteration order of a Python set of objects: it differs from run to run
+        traces, crash = run_impl(ctx, [case], workers=1)
+        if crash:
+            break
+        tr = traces[0]
+        bad = oracle(case, tr, actions, consts)
+        print(f'(attempt {attempt + 2}: receiver orders {[e["fan"]["order"] for e in tr if e.get("fan")]})')
     for (op, a), e in zip(expand_ops(case, actions), tr):
         print(op[:2] if op[0] == 'sub' else op, '->', e['resp'], [h['m'] for h in e['handed']], e['table'], e['pool'])
     print('oracle:', bad)
-    if case.get('unit') != 'ms':
+    if any(op[0] == 'freport' for op in case['ops']):
+        for (op, a), e in zip(expand_ops(case, actions), tr):
+            if op[0] == 'freport':
+                fan = e.get('fan') or {}
+                print('fan-out', op[1], 'receiver order', fan.get('order'))
+                for ev in fan.get('events', []):
+                    print('   hand-off', ev['m'], 'ok' if ev['ok'] else 'FAILED', '| meanwhile:',
+                          [(x['op'][:2], x['resp'], [h['m'] for h in x['handed']]) for x in ev['inner']])
+                print('   waited for the table lock:', [(x['op'][:2], x['resp']) for x in fan.get('waited', [])])
+        print(ctx.coq_eval(HEADER_X, f'xrun_case {lit_xcase(case, tr, actions)}')[-4000:])
+    elif case.get('unit') != 'ms':
         print(ctx.coq_eval(HEADER, f'run_case {lit_case(case, actions)}')[-4000:])
     return 1 if bad else 0
